@@ -120,7 +120,11 @@ impl SizeManifestBuilder {
         }
 
         let entry_count = self.entries.len() as u32;
-        let total_size: u64 = self.entries.iter().map(|e| e.esize).sum();
+        let total_size = self
+            .entries
+            .iter()
+            .try_fold(0u64, |acc, e| acc.checked_add(e.esize))
+            .ok_or(SizeError::TotalSizeOverflow)?;
 
         // Resize tag bit masks to match entry count
         let bit_mask_size = (self.entries.len()).div_ceil(8);
